@@ -10,6 +10,8 @@
     visible  edits of spec / payload / labels / ordinary annotations must change the essence;
     essence  the implementation's essence equals the reference Essence(body, x) of the specification;
     diff / reduce  diffs.diff and diffs.reduce against the reference Diff / ReduceRef, soundness, completeness.
+(C) closed loop: histories with views older than the framework's own write (profile `consistency`, incl. operators with update
+    handlers only) on the real operator, validated by Trace_Handling: a change made meanwhile still counts.
     Bodies: bounded-exhaustive over a small alphabet, plus hypothesis-generated larger ones (nesting, unicode, nulls).
 """
 from __future__ import annotations
@@ -272,6 +274,12 @@ def run(ctx, rep) -> None:
     for rec in recs:
         kinds[rec['kind']] = kinds.get(rec['kind'], 0) + 1
     rep.extra['records_by_kind'] = kinds
+    # (C) closed loop: a change made while the framework's own write is in flight (views older than that write arrive first) still
+    # counts against what was stored as handled -- also for an operator that has nothing to call on creation; histories of the
+    # `consistency` profile on the real operator, every trace a behaviour of Handling.tla (Trace_Handling)
+    from vf import handling as H
+    from vf.props import _family
+    _family.run_traces(rep, H.gen_scenarios(ctx.seed + 5, 60 if ctx.quick else 1500, 'consistency'), 'consistency', nontrivial=lambda f: 'inconsistent-view' in f)
     for k in ('own', 'diff'):
         rep.sample(next(r_ for r_ in recs if r_['kind'] == k and (k != 'own' or r_['body']['v'])))
     for i, label in sorted(bad.items()):
